@@ -1,11 +1,14 @@
-"""C10 - decryption (the reachable part): permission bits, where decryption is applied, padding removal, per-object key material.
+"""C10 - decryption: permission bits, where decryption is applied, padding removal, per-object key material, and key derivation / password
+authentication with the hash and cipher primitives as uninterpreted functions.
 
-MD5 / SHA-2 / AES / the RC4 key schedule are hash and cipher loops behind C libraries: key derivation (Algorithms 2, 2.A, 2.B, 3-7),
-password acceptance / rejection and cipher correctness are NOT claimed.  Claimed, with those primitives replaced by recording stubs:
+MD5 / SHA-2 / AES / RC4 themselves are hash and cipher loops (behind C libraries, or XOR-heavy): their correctness is NOT claimed.
 H1 permission bits for every signed 32-bit P        H2 every non-empty string leaf is deciphered exactly once with the enclosing (objid, genno);
 object-stream members are not deciphered            H3 AES: PKCS#5 padding of every length removed from symbolic plaintext
-H4 RC4 / AESV2 per-object key material = file key + 3 low bytes of objid + 2 low bytes of genno (little endian) [+ 'sAlT']; RC4 applied twice is the identity
+H4 RC4 / AESV2 per-object key material = file key + 3 low bytes of objid + 2 low bytes of genno (little endian) [+ 'sAlT']
 H5 EncryptMetadata=false leaves /Type /Metadata streams alone and nothing else
+H6 key derivation: the real compute_encryption_key / compute_u / authenticate_* (R2-R4), V5.authenticate (R5, R6) and _r6_password run on byte-string
+proxies with md5 / sha256/384/512 / RC4 / AES-CBC replaced by z3 uninterpreted functions; the oracle is ISO 32000-1 Algorithms 2-7 and ISO 32000-2
+Algorithms 2.A / 2.B written on the same functions; the solver decides equality of the derived keys by congruence.
 """
 import types
 
@@ -19,10 +22,18 @@ from lib import core
 from lib.core import Job
 
 ASSUMPTIONS = [
-    "md5 / Cipher / Arcfour(key) are replaced by recording stubs that return values of their contract: what is checked is the plumbing around them",
+    "H2-H5: md5 / Cipher / Arcfour(key) are replaced by recording stubs that return values of their contract: what is checked is the plumbing around them",
     "H3: the AES stub returns plaintext || PKCS#5 padding for a symbolic pad length 1..16 and symbolic plaintext bytes",
+    "H6: md5, sha256/384/512, RC4, AES-CBC and byte^constant are uninterpreted functions; laws assumed: outputs are bytes, x^0 = x, deciphering with the same key (and IV) undoes "
+    "enciphering, and (R5/R6 authenticate only) SHA-256 / Algorithm 2.B are collision free on the inputs met",
+    "H6_r6hash: the first AES output block of round r is fixed to (c_r, 0, .., 0) with c_r following the job's SHA-selection pattern; the loop ends after 64..66 rounds; the 64 copies "
+    "of the round input and each AES output are kept folded (absorbed as one unit)",
+    "H6_r5 with R6: the password is printable ASCII (SASLprep is the identity there; _saslprep itself - Unicode tables - is not examined)",
+    "H6 counterexamples are confirmed on the real MD5 / SHA / AES / RC4: directly (R2-R5), or by a bounded search over passwords / salts of the counterexample's shape (Algorithm 2.B, whose "
+    "round count depends on real hash values)",
 ]
-OUTSIDE = ["key derivation, password check, cipher correctness (C libraries / hash loops): not claimed", "crypt filters other than V2 / AESV2 / AESV3 / Identity"]
+OUTSIDE = ["cipher and hash correctness (C libraries / XOR loops): not claimed", "rejection of wrong passwords (needs collision resistance of the real hashes)", "SASLprep normalisation",
+           "crypt filters other than V2 / AESV2 / AESV3 / Identity", "passwords longer than 33 bytes (R2-R4) / 3 bytes (R5, R6)"]
 
 
 def _mk_handler(cls, **attrs):
@@ -297,6 +308,454 @@ def h5_metadata(timeout=60, **kw):
                          timeout, concretize=conc)
 
 
+# ---------------------------------------------------------------------------------------------------------------------------------
+# H6: key derivation with the primitives as UNINTERPRETED FUNCTIONS.  md5 / sha256 / RC4 / AES are z3 functions over an uninterpreted
+# state sort (absorb chain + output byte selector), so the solver decides - by congruence - whether the real derivation code hashes and
+# enciphers exactly the byte strings that ISO 32000-1 Algorithms 2-7 (and 2.A of ISO 32000-2 for R5) prescribe.  The only laws assumed
+# of the primitives (and of byte ^ constant, also uninterpreted): outputs are bytes; x ^ 0 = x; RC4 / AES-CBC deciphering with the same key (and IV) undoes enciphering.
+# ---------------------------------------------------------------------------------------------------------------------------------
+def _zt(e):
+    return e if isinstance(e, z3.ExprRef) else symx.zi(e)
+
+
+class Rep(SByI):
+    """base * count, kept folded (the revision-6 hash enciphers 64 copies of a string)"""
+    def __init__(self, base, count):
+        self.base, self.count = base, count
+
+    els = property(lambda self: self.base.els * self.count)
+
+    def __len__(self):
+        return len(self.base.els) * self.count
+
+
+class Lazy(SByI):
+    """the n output bytes of one cipher application, materialised byte by byte on demand"""
+    def __init__(self, uf, blob, n):
+        self.uf, self.blob, self.n = uf, blob, n
+        self.fixed = {}                              # positions the harness fixes to concrete values
+
+    def byte(self, j):
+        if j in self.fixed:
+            return self.fixed[j]
+        t = self.uf.blob_byte(self.blob, z3.IntVal(j))
+        if t.get_id() not in self.uf.ranged:
+            self.uf.ranged.add(t.get_id())
+            self.uf.ex.s.add(t >= 0, t <= 255)
+        return t
+
+    els = property(lambda self: [self.byte(j) for j in range(self.n)])
+
+    def __len__(self):
+        return self.n
+
+    def __add__(self, o):
+        return self if len(o) == 0 else SByI(self.els + SBy.of(o).els)
+
+    def __radd__(self, o):
+        return self if len(o) == 0 else SByI(SBy.of(o).els + self.els)
+
+    def __getitem__(self, k):
+        if isinstance(k, slice):
+            return SByI([self.byte(j) for j in range(*k.indices(self.n))])
+        if isinstance(k, SI):
+            k = k.__index__()
+        b = self.byte(k if k >= 0 else self.n + k)
+        return b if isinstance(b, int) else SI(b, ub=8)
+
+
+class UF:
+    def __init__(self, ex):
+        self.ex = ex
+        self.St = z3.DeclareSort("HState")
+        self.absorb = z3.Function("absorb", self.St, z3.IntSort(), self.St)
+        self.out = z3.Function("outbyte", self.St, z3.IntSort(), z3.IntSort())
+        self.Blob = z3.DeclareSort("Blob")
+        self.absorb_blob = z3.Function("absorb_blob", self.St, self.Blob, self.St)
+        self.blob_of = z3.Function("blob_of", self.St, self.Blob)
+        self.blob_byte = z3.Function("blob_byte", self.Blob, z3.IntSort(), z3.IntSort())
+        self.inits = {}
+        self.ranged = set()
+        self.calls = []
+        self.injective = False             # (also: cipher keys compared by the solver, not syntactically)  collision freedom: equal digests only for equal inputs (needed where the code branches on a digest comparison with a wrong password)
+        self.apps = {}
+
+    def _init(self, name):
+        if name not in self.inits:
+            self.inits[name] = z3.Const("init_" + name, self.St)
+        return self.inits[name]
+
+    def chain(self, st, item):
+        if isinstance(item, Lazy):                  # the whole output of one cipher application, absorbed in one step
+            return self.absorb_blob(st, item.blob)
+        if isinstance(item, Rep):                   # base * count: the base, then a marker
+            for e in item.base.els:
+                st = self.absorb(st, _zt(e))
+            return self.absorb(st, z3.IntVal(1000 + item.count))
+        for e in SBy.of(item).els:
+            st = self.absorb(st, _zt(e))
+        return st
+
+    def apply(self, name, parts, nout):
+        """parts: list of byte strings, separated in the chain by the non-byte 256"""
+        st = self._init(name)
+        for k, part in enumerate(parts):
+            if k:
+                st = self.absorb(st, z3.IntVal(256))
+            for item in (part if isinstance(part, list) else [part]):
+                st = self.chain(st, item)
+        els = []
+        for j in range(nout):
+            o = self.out(st, z3.IntVal(j))
+            if o.get_id() not in self.ranged:
+                self.ranged.add(o.get_id())
+                self.ex.s.add(o >= 0, o <= 255)
+            els.append(o)
+        self.calls.append(name)
+        if self.injective and name in ("md5", "sha256"):
+            flat = [_zt(e) for part in parts for item in (part if isinstance(part, list) else [part]) for e in SBy.of(item).els]
+            for st2, flat2, els2 in self.apps.setdefault(name, []):
+                if st2.eq(st):
+                    break
+                same_in = z3.And([a == b for a, b in zip(flat, flat2)]) if len(flat) == len(flat2) else z3.BoolVal(False)
+                self.ex.s.add(z3.Implies(z3.And([a == b for a, b in zip(els, els2)]), same_in))
+            else:
+                self.apps[name].append((st, flat, els))
+        return SByI(els)
+
+
+def _same(ex, a, b, solver=False):
+    a, b = SBy.of(a), SBy.of(b)
+    if len(a) != len(b):
+        return False
+    conds = []
+    for x, y in zip(a.els, b.els):
+        if isinstance(x, int) and isinstance(y, int):
+            if x != y:
+                return False
+        elif not (not isinstance(x, int) and not isinstance(y, int) and x.eq(y)):
+            conds.append(_zt(x) == _zt(y))
+    # no solver query here: keys that are equal only semantically count as different (the rewrite is then not applied: sound, possibly incomplete)
+    if solver:
+        return True if not conds else ex.holds(SB(z3.And(conds)))
+    return True if not conds else z3.is_true(z3.simplify(z3.And(conds)))
+
+
+def _install_uf(ex, pd):
+    """replaces md5 / sha256 / Arcfour / Cipher in pdfdocument's namespace by uninterpreted functions; returns the UF object and reference-side helpers"""
+    uf = UF(ex)
+
+    class Hash:
+        NAME, N = "md5", 16
+
+        def __init__(self, data=b""):
+            self.items = [data]
+
+        def update(self, data):
+            self.items.append(data)
+
+        def digest(self):
+            return uf.apply(self.NAME, [self.items], self.N)
+
+    class Sha256(Hash):
+        NAME, N = "sha256", 32
+
+    class Sha384(Hash):
+        NAME, N = "sha384", 48
+
+    class Sha512(Hash):
+        NAME, N = "sha512", 64
+    uf.Sha384, uf.Sha512 = Sha384, Sha512
+
+    def stream(name, key, data, iv=None):
+        """a cipher applied to data: undoes itself on its own output with the same key (and IV), else a fresh application"""
+        tag = getattr(data, "_ciph", None)
+        if tag is not None and tag[0] == name and _same(ex, tag[1], key, uf.injective) and (iv is None or _same(ex, tag[2], iv, uf.injective)):
+            return tag[3]
+        out = uf.apply(name, [key, data] + ([iv] if iv is not None else []), len(data))
+        out._ciph = (name, key, iv, data)
+        return out
+
+    class Arc:
+        def __init__(self, key):
+            self.key = SBy.of(key)
+
+        def process(self, data):
+            return stream("rc4", self.key, data if isinstance(data, SBy) else SByI(list(data)))
+        encrypt = decrypt = process
+
+    class Ciph:
+        def __init__(self, key, mode, backend=None):
+            self.key, self.iv = SBy.of(key), SBy.of(mode)
+
+        def decryptor(self):
+            return self
+
+        def update(self, data):
+            return stream("aes_cbc", self.key, data if isinstance(data, SBy) else SByI(list(data)), self.iv)
+
+    def py_pack(fmt, v):
+        assert fmt == "<L"
+        if isinstance(v, SI):
+            if not bool(SB(z3.And(v.e >= 0, v.e < 2 ** 32))):
+                raise ValueError("argument out of range")
+            return SBy([(v.e / 256 ** k) % 256 for k in range(4)])
+        return int(v).to_bytes(4, "little")
+    xorf = z3.Function("xor8", z3.IntSort(), z3.IntSort(), z3.IntSort())
+
+    def uf_xor(a, o):
+        """byte ^ constant as an uninterpreted function (x ^ 0 = x is the only law used): div/mod bit arithmetic on digests stalls the solver"""
+        if isinstance(o, int) and not isinstance(o, bool) and 0 <= o <= 255:
+            if o == 0:
+                return a
+            t = xorf(a.e, z3.IntVal(o))
+            if t.get_id() not in uf.ranged:
+                uf.ranged.add(t.get_id())
+                ex.s.add(t >= 0, t <= 255)
+            return SI(t, ub=8)
+        raise symx.Unsupported("xor of a symbolic byte with %r" % (o,))
+    SI.__xor__ = SI.__rxor__ = uf_xor
+    pd.struct = types.SimpleNamespace(pack=py_pack)
+    pd.md5, pd.sha256, pd.Arcfour, pd.Cipher = Hash, Sha256, Arc, Ciph
+    pd.algorithms = types.SimpleNamespace(AES=lambda key: key)
+    pd.modes = types.SimpleNamespace(CBC=lambda iv: iv)
+    pd.default_backend = lambda: None
+    def bytes_(x=b"", *a):
+        # bytes((c,)) of a value already known to be a byte needs no solver query
+        if isinstance(x, tuple) and len(x) == 1 and isinstance(x[0], SI) and x[0].e.get_id() in uf.ranged:
+            return SBy([x[0].e])
+        return sbytes.BytesT(x, *a)
+    pd.bytes = bytes_
+    return uf, Hash, Sha256, stream
+
+
+PADDING = (b"(\xbfN^Nu\x8aAd\x00NV\xff\xfa\x01\x08" b"..\x00\xb6\xd0h>\x80/\x0c\xa9\xfedSiz")
+PWLENS = [0, 1, 33]
+
+
+def _xor_key(key, i):
+    return SBy([(e ^ i) if isinstance(e, int) else (SI(e) ^ i).e for e in SBy.of(key).els])
+
+
+def h6_keyderiv(rev=3, timeout=300, part=None, **kw):
+    """Algorithms 2-7 for R2-R4 (RC4 / AESV2 handlers): both the user and the owner password derive the file key the standard prescribes"""
+    import pdfminer.pdfdocument as pd
+    shims = numshim.install("pdfdocument", "pdftypes")
+    patched = sbytes.patch_module_in(pd)
+
+    def fn(ex):
+        uf, Hash, Sha256, stream = _install_uf(ex, pd)
+        n = 5 if rev == 2 else (16 if rev == 4 else [5, 7, 16][ex.choice(3, "keybytes")])
+        em = (ex.choice(2, "encrypt_metadata") == 1) if rev == 4 else True
+        upw = SByI(sbytes.sym_bytes(ex, "u", PWLENS[ex.choice(3, "ulen")]).els)
+        opw = SByI(sbytes.sym_bytes(ex, "o", PWLENS[ex.choice(3, "olen")]).els)
+        docid = SByI(sbytes.sym_bytes(ex, "id", 2).els)
+        Ps = ex.int("P", -2 ** 31, 2 ** 31 - 1)              # as stored: a signed 32-bit integer
+        P = SI(z3.If(Ps.e < 0, Ps.e + 2 ** 32, Ps.e))
+        tail = sbytes.sym_bytes(ex, "t", 16)                  # Algorithm 5: 16 bytes of arbitrary padding
+        pad = lambda pw: (pw + PADDING)[:32]
+        # ---- reference: Algorithm 3 (O), Algorithm 2 (key), Algorithms 4/5 (U)
+        h = Hash(pad(opw)).digest()
+        if rev >= 3:
+            for _ in range(50):
+                h = Hash(h).digest()
+        okey = h[:n]
+        O = stream("rc4", okey, pad(upw))
+        if rev >= 3:
+            for i in range(1, 20):
+                O = stream("rc4", _xor_key(okey, i), O)
+        hh = Hash(pad(upw))
+        hh.update(O)
+        hh.update(SBy([(P.e / 256 ** k) % 256 for k in range(4)]))
+        hh.update(docid)
+        if rev >= 4 and not em:
+            hh.update(b"\xff\xff\xff\xff")
+        key = hh.digest()
+        if rev >= 3:
+            for _ in range(50):
+                key = Hash(key[:n]).digest()
+        key = key[:n]
+        if rev == 2:
+            U = stream("rc4", key, SByI(list(PADDING)))
+        else:
+            x = Hash(PADDING)
+            x.update(docid)
+            x = stream("rc4", key, x.digest())
+            for i in range(1, 20):
+                x = stream("rc4", _xor_key(key, i), x)
+            U = x + tail
+        nref = len(uf.calls)
+        # ---- the real handler
+        cls = pd.PDFStandardSecurityHandlerV4 if rev == 4 else pd.PDFStandardSecurityHandler
+        info = {"rev": rev, "n": n, "em": em, "upw": upw, "opw": opw, "docid": docid, "P": Ps, "tail": tail}
+        hd = _mk_handler(cls, docid=[docid], r=rev, v=4 if rev == 4 else (1 if rev == 2 else 2), p=pd.uint_value(Ps, 32), o=O, u=U, length=n * 8, encrypt_metadata=em)
+        for who, pw in (("user", upw), ("owner", opw)):
+            try:
+                got = hd.authenticate_user_password(pw) if who == "user" else hd.authenticate_owner_password(pw)
+            except Exception as e:
+                ex.require(False, "authenticating the %s password raises %r" % (who, e), who=who, **info)
+            ex.require(got is not None, "the %s password is rejected" % who, who=who, **info)
+            ex.require(len(got) == n and SBy.of(got) == key, "the %s password derives a file key other than the one of Algorithm 2" % who, who=who, **info)
+
+    def conc(m, info):
+        mb = lambda x: sbytes.model_bytes(m, x)
+        return {"rev": info["rev"], "n": info["n"], "em": info["em"], "upw": mb(info["upw"]), "opw": mb(info["opw"]), "docid": mb(info["docid"]), "P": symx.mval(m, info["P"]),
+                "tail": mb(info["tail"]), "who": info["who"]}
+    H = pd.PDFStandardSecurityHandler
+    return core.run_symx("H6_keyderiv", fn, [pd.uint_value, H.compute_encryption_key, H.compute_u, H.verify_encryption_key, H.authenticate_user_password, H.authenticate_owner_password],
+                         {"revision": rev, "key bytes": "5" if rev == 2 else ("16" if rev == 4 else "5 / 7 / 16"), "passwords": "user and owner, %r symbolic bytes each" % PWLENS, "P": "symbolic signed 32-bit, through the real uint_value",
+                          "ID[0]": "2 symbolic bytes", "EncryptMetadata": "true/false (R4)", "primitives": "md5 / RC4 as uninterpreted functions"}, timeout, concretize=conc,
+                         shims={"namespace_shims": shims + ["md5 / Arcfour -> uninterpreted functions (z3 UF over an absorb chain)", "struct.pack('<L') -> little-endian arithmetic", "pdfdocument.bytes"],
+                                "ast_rewritten": patched}, part=part)
+
+
+def h6_r5(rev=5, timeout=200, **kw):
+    """Algorithm 2.A (AESV3): either password recovers the file key stored in UE / OE.  rev=5: SHA-256 hash (Adobe extension level 3); rev=6: the hash is Algorithm 2.B,
+    here one more uninterpreted function (H6_r6hash checks _r6_password against 2.B), the password is assumed to be in SASLprep normal form"""
+    import pdfminer.pdfdocument as pd
+    shims = numshim.install("pdfdocument")
+
+    class PW:
+        """stands for the str password: utf-8 encodes to the symbolic bytes"""
+        def __init__(self, b): self.b = b
+        def __bool__(self): return len(self.b) > 0
+        def encode(self, enc): return self.b
+
+    def fn(ex):
+        uf, Hash, Sha256, stream = _install_uf(ex, pd)
+        uf.injective = True
+        lo, hi = (0, 255) if rev == 5 else (33, 126)        # rev 6: printable ASCII, on which SASLprep is the identity
+        upw = SByI(sbytes.sym_bytes(ex, "u", [0, 1, 3][ex.choice(3, "ulen")], lo, hi).els)
+        opw = SByI(sbytes.sym_bytes(ex, "o", [0, 1, 3][ex.choice(3, "olen")], lo, hi).els)
+        fkey = SByI(sbytes.sym_bytes(ex, "k", 32).els)
+        uvs, uks, ovs, oks = (SByI(sbytes.sym_bytes(ex, nm, 8).els) for nm in ("uvs", "uks", "ovs", "oks"))
+        sha = lambda *parts: Sha256(sum(parts[1:], parts[0])).digest()
+        if rev == 6:
+            import pdfminer._saslprep as sp
+            sp.saslprep = lambda p, **k: p
+            r6 = lambda self, pw, salt, vector=None: uf.apply("sha256", [[b"2.B"], pw, salt, vector if vector is not None else b""], 32)     # shares sha256's collision freedom
+            pd.PDFStandardSecurityHandlerV5._r6_password = r6
+            sha = lambda pw, salt, vector=None: r6(None, pw, salt, vector)
+        iv0 = SByI([0] * 16)
+        U = sha(upw, uvs) + uvs + uks
+        UE = stream("aes_cbc_enc", sha(upw, uks), fkey, iv0)
+        UE._ciph = ("aes_cbc", UE._ciph[1], iv0, fkey)              # deciphering UE with that key and IV gives the file key
+        O = sha(opw, ovs, U) + ovs + oks
+        OE = stream("aes_cbc_enc", sha(opw, oks, U), fkey, iv0)
+        OE._ciph = ("aes_cbc", OE._ciph[1], iv0, fkey)
+        hd = _mk_handler(pd.PDFStandardSecurityHandlerV5, r=rev, v=5, u=U, o=O, ue=UE, oe=OE, o_hash=O[:32], o_validation_salt=O[32:40], o_key_salt=O[40:],
+                         u_hash=U[:32], u_validation_salt=U[32:40], u_key_salt=U[40:])
+        info = {"upw": upw, "opw": opw, "fkey": fkey, "salts": [uvs, uks, ovs, oks]}
+        for who, pw in (("user", upw), ("owner", opw)):
+            got = hd.authenticate(PW(pw))
+            ex.require(got is not None, "the %s password is rejected" % who, who=who, **info)
+            ex.require(len(got) == 32 and SBy.of(got) == fkey, "the %s password recovers a key other than the file key" % who, who=who, **info)
+
+    def conc(m, info):
+        mb = lambda x: sbytes.model_bytes(m, x)
+        return {"rev": rev, "upw": mb(info["upw"]), "opw": mb(info["opw"]), "fkey": mb(info["fkey"]), "salts": [mb(x) for x in info["salts"]], "who": info["who"]}
+    H = pd.PDFStandardSecurityHandlerV5
+    return core.run_symx("H6_r5", fn, [H.authenticate, H._password_hash, H._r5_password, H._normalize_password],
+                         {"revision": rev, "passwords": "user and owner, 0 / 1 / 3 symbolic bytes", "salts, file key": "symbolic bytes", "primitives": "sha256 / AES-CBC as uninterpreted functions"},
+                         timeout, concretize=conc, shims={"namespace_shims": shims + ["sha256 / Cipher -> uninterpreted functions"]})
+
+
+def r6_reference(pw, salt, ud):
+    """ISO 32000-2 Algorithm 2.B on the real primitives: (hash, rounds)"""
+    import hashlib
+    from cryptography.hazmat.primitives.ciphers import Cipher, algorithms, modes
+    k = hashlib.sha256(pw + salt + ud).digest()
+    i = 0
+    while True:
+        enc = Cipher(algorithms.AES(k[:16]), modes.CBC(k[16:32])).encryptor()
+        e = enc.update((pw + k + ud) * 64) + enc.finalize()
+        k = (hashlib.sha256, hashlib.sha384, hashlib.sha512)[int.from_bytes(e[:16], "big") % 3](e).digest()
+        i += 1
+        if i >= 64 and e[-1] <= i - 32:
+            return k[:32], i
+
+
+R6_PATTERNS = {"sha256": lambda r: 0, "sha384": lambda r: 1, "sha512": lambda r: 2, "cycle": lambda r: r % 3, "mixed": lambda r: (r * r + 1) % 3}
+R6_EXTRA = 2
+
+
+def h6_r6hash(pattern="cycle", timeout=300, **kw):
+    """Algorithm 2.B (ISO 32000-2 7.6.4.3.4): the revision-6 hash, with SHA-256/384/512 and AES-128-CBC as uninterpreted functions.  The AES outputs are constrained so
+    that the SHA selection follows `pattern` and the loop ends after 64 .. 64+R6_EXTRA rounds; the last byte of the 64th.. outputs stays symbolic."""
+    import pdfminer.pdfdocument as pd
+    shims = numshim.install("pdfdocument")
+
+    def fn(ex):
+        uf, Hash, Sha256, stream = _install_uf(ex, pd)
+        pd.sha384, pd.sha512 = uf.Sha384, uf.Sha512
+        SByI.__mul__ = lambda b, k: Rep(b, k)
+        order, sel = [], {}
+
+        def aes_enc(key, iv, data):
+            st = uf._init("aes128_cbc_enc")
+            for part in (key, iv, data):
+                st = uf.absorb(uf.chain(st, part), z3.IntVal(256))
+            blob = uf.blob_of(st)
+            e = Lazy(uf, blob, len(data))
+            if blob.get_id() in sel:
+                e.fixed = {0: sel[blob.get_id()], **{j: 0 for j in range(1, 16)}}
+            else:
+                r = len(order)
+                if r > 64 + R6_EXTRA + 2:
+                    raise symx.Abort()                                   # outside the bound (more rounds than the constraints below allow: only a wrong loop gets here)
+                order.append(blob)
+                c = R6_PATTERNS[pattern](r)
+                sel[blob.get_id()] = c
+                e.fixed = {0: c, **{j: 0 for j in range(1, 16)}}          # first block (c, 0, .., 0): residues mod 3 as free constraints do not get a solver verdict in time
+                if r >= 63 + R6_EXTRA:
+                    ex.s.add(e.byte(len(data) - 1) <= (r + 1) - 32)      # the loop ends here at the latest
+            return e
+
+        class Ciph6:
+            def __init__(self, key, mode, backend=None):
+                self.key, self.iv = key, mode
+
+            def encryptor(self):
+                return self
+
+            def update(self, data):
+                return aes_enc(self.key, self.iv, data)
+
+            def finalize(self):
+                return b""
+        pd.Cipher = Ciph6
+        pw = SByI(sbytes.sym_bytes(ex, "p", [0, 1, 3][ex.choice(3, "pwlen")]).els)
+        salt = SByI(sbytes.sym_bytes(ex, "s", 8).els)
+        udata = SByI(sbytes.sym_bytes(ex, "v", 48).els) if ex.choice(2, "has_udata") else None
+        info = {"pw": pw, "salt": salt, "udata": udata, "pattern": pattern}
+        hd = _mk_handler(pd.PDFStandardSecurityHandlerV5, r=6)
+        got = hd._password_hash(pw, salt, udata)
+        # ---- reference: Algorithm 2.B
+        ud = udata if udata is not None else SByI([])
+        k = Sha256(pw + salt + ud).digest()
+        i = 0
+        while True:
+            k1 = Rep(pw + k + ud, 64)
+            e = aes_enc(k[:16], k[16:32], k1)
+            c = sel[e.blob.get_id()]                                       # = (first 16 bytes as a big-endian number) mod 3, by the constraint on this output
+            k = (Sha256, uf.Sha384, uf.Sha512)[c](e).digest()
+            i += 1                                                         # rounds done
+            if i >= 64 and not bool(SB(e.byte(len(e) - 1) > i - 32)):
+                break
+            if i > 64 + R6_EXTRA + 2:
+                raise symx.Abort()
+        ex.require(len(got) == 32 and SBy.of(got) == k[:32], "the revision-6 hash differs from Algorithm 2.B", rounds=i, **info)
+
+    def conc(m, info):
+        mb = lambda x: None if x is None else sbytes.model_bytes(m, x)
+        return {"pw": mb(info["pw"]), "salt": mb(info["salt"]), "udata": mb(info["udata"]), "pattern": info["pattern"], "rounds": info["rounds"]}
+    H = pd.PDFStandardSecurityHandlerV5
+    return core.run_symx("H6_r6hash", fn, [H._password_hash, H._r6_password, H._bytes_mod_3, H._aes_cbc_encrypt],
+                         {"password": "0 / 1 / 3 symbolic bytes", "salt": "8 symbolic bytes", "udata": "absent or 48 symbolic bytes", "sha selection": "pattern %r (the first AES output block is fixed to (c, 0, .., 0), c the pattern's residue mod 3)" % pattern,
+                          "rounds": "64 .. %d (last byte of the AES output symbolic)" % (64 + R6_EXTRA), "primitives": "SHA-256/384/512, AES-128-CBC as uninterpreted functions; 64 copies kept folded"},
+                         timeout, concretize=conc, shims={"namespace_shims": shims + ["sha256/384/512, Cipher -> uninterpreted functions"]}, int_lo=0, int_hi=2)
+
+
 def replay(harness, inp):
     import pdfminer.pdfdocument as pd
     if harness == "H1_permissions":
@@ -360,11 +819,113 @@ def replay(harness, inp):
         return None if out == exp else "decrypt with EncryptMetadata=%s on an object of Type %r returns %r, expected %r" % (inp["em"], inp["typ"], out, exp)
     if harness == "H2_where":
         return core.replay_by_choices(h2_where, {}, inp["_choices"])
+    if harness == "H6_keyderiv":
+        from hashlib import md5
+
+        def rc4(key, data):
+            S, j, out = list(range(256)), 0, bytearray()
+            for i in range(256):
+                j = (j + S[i] + key[i % len(key)]) % 256
+                S[i], S[j] = S[j], S[i]
+            i = j = 0
+            for c in data:
+                i = (i + 1) % 256
+                j = (j + S[i]) % 256
+                S[i], S[j] = S[j], S[i]
+                out.append(c ^ S[(S[i] + S[j]) % 256])
+            return bytes(out)
+        rev, n, em, upw, opw, docid, P, tail = (inp[k] for k in ("rev", "n", "em", "upw", "opw", "docid", "P", "tail"))
+        pad = lambda pw: (pw + PADDING)[:32]
+        h = md5(pad(opw)).digest()
+        if rev >= 3:
+            for _ in range(50):
+                h = md5(h).digest()
+        okey = h[:n]
+        O = rc4(okey, pad(upw))
+        if rev >= 3:
+            for i in range(1, 20):
+                O = rc4(bytes(c ^ i for c in okey), O)
+        key = md5(pad(upw) + O + (P % 2 ** 32).to_bytes(4, "little") + docid + (b"\xff" * 4 if rev >= 4 and not em else b"")).digest()
+        if rev >= 3:
+            for _ in range(50):
+                key = md5(key[:n]).digest()
+        key = key[:n]
+        if rev == 2:
+            U = rc4(key, PADDING)
+        else:
+            x = rc4(key, md5(PADDING + docid).digest())
+            for i in range(1, 20):
+                x = rc4(bytes(c ^ i for c in key), x)
+            U = x + tail
+        from pdfminer.psparser import LIT
+        param = {"V": 4 if rev == 4 else (1 if rev == 2 else 2), "R": rev, "P": P, "O": O, "U": U, "Length": n * 8}
+        cls = pd.PDFStandardSecurityHandler
+        if rev == 4:
+            cls = pd.PDFStandardSecurityHandlerV4
+            param.update({"CF": {"StdCF": {"CFM": LIT("AESV2")}}, "StmF": LIT("StdCF"), "StrF": LIT("StdCF"), "EncryptMetadata": em})
+        pw = upw if inp["who"] == "user" else opw
+        try:
+            hd = cls([docid], param, pw.decode("latin1"))
+        except pd.PDFPasswordIncorrect:
+            return "R%d, %d-byte key, P=%d, ID=%r, EncryptMetadata=%s: the %s password %r is rejected (user %r, owner %r)" % (rev, n, P, docid, em, inp["who"], pw, upw, opw)
+        except Exception as e:
+            return "R%d, %d-byte key, P=%d, ID=%r: opening with the %s password %r raises %r" % (rev, n, P, docid, inp["who"], pw, e)
+        return None if hd.key == key else "R%d, %d-byte key, P=%d, ID=%r, EncryptMetadata=%s: the %s password %r derives key %s, Algorithm 2 gives %s" % (
+            rev, n, P, docid, em, inp["who"], pw, hd.key.hex(), key.hex())
+    if harness == "H6_r6hash":
+        ref = r6_reference
+        hd = _mk_handler(pd.PDFStandardSecurityHandlerV5, r=6)
+        salt, ud = inp["salt"], inp["udata"]
+        # the symbolic counterexample fixes the shape (lengths, presence of udata, round count); which concrete password / salt meets the round count depends on the
+        # real SHA / AES values, so inputs of that shape are tried until the real function and Algorithm 2.B disagree (bounded search; the model's values first)
+        import random
+        rnd = random.Random(0)
+        n = len(inp["pw"])
+        cands = [(inp["pw"], salt)] + [(bytes(rnd.randrange(33, 127) for _ in range(n)), bytes(rnd.randrange(256) for _ in range(8))) for _ in range(3000)]
+        for pw, sl in cands:
+            try:
+                got = hd._password_hash(pw, sl, ud)
+            except Exception as e:
+                return "_r6_password(%r, %r, %r) raises %r" % (pw, sl, ud, e)
+            exp, rounds = ref(pw, sl, ud or b"")
+            if got != exp:
+                return "revision-6 hash of password %r, salt %r, udata %r: %s, Algorithm 2.B (%d rounds) gives %s" % (pw, sl, ud, got.hex(), rounds, exp.hex())
+        return None
+    if harness == "H6_r5":
+        from hashlib import sha256
+        from cryptography.hazmat.primitives.ciphers import Cipher, algorithms, modes
+        upw, opw, fkey = inp["upw"], inp["opw"], inp["fkey"]
+        uvs, uks, ovs, oks = inp["salts"]
+
+        def enc(k, data):
+            e = Cipher(algorithms.AES(k), modes.CBC(bytes(16))).encryptor()
+            return e.update(data) + e.finalize()
+        rev = inp.get("rev", 5)
+        H = (lambda *parts: sha256(b"".join(parts)).digest()) if rev == 5 else (lambda pw, salt, ud=b"": r6_reference(pw, salt, ud)[0])
+        U = H(upw, uvs) + uvs + uks
+        UE = enc(H(upw, uks), fkey)
+        O = H(opw, ovs, U) + ovs + oks
+        OE = enc(H(opw, oks, U), fkey)
+        from pdfminer.psparser import LIT
+        param = {"V": 5, "R": rev, "P": -4, "O": O, "U": U, "OE": OE, "UE": UE, "Length": 256, "CF": {"StdCF": {"CFM": LIT("AESV3")}}, "StmF": LIT("StdCF"), "StrF": LIT("StdCF")}
+        pw = upw if inp["who"] == "user" else opw
+        try:
+            s_pw = pw.decode("utf-8")
+        except UnicodeDecodeError:
+            return None                      # not a password a caller can pass as str
+        try:
+            hd = pd.PDFStandardSecurityHandlerV5([b"id"], param, s_pw)
+        except pd.PDFPasswordIncorrect:
+            return "R%d: the %s password %r is rejected" % (rev, inp["who"], pw)
+        return None if hd.key == fkey else "R%d: the %s password %r recovers %s, the file key is %s" % (rev, inp["who"], pw, hd.key.hex(), fkey.hex())
     raise KeyError(harness)
 
 
 def jobs(tier):
-    J = [Job("H1_permissions", "h1_permissions", {}, 60), Job("H2_where", "h2_where", {}, 150), Job("H4_keys", "h4_keys", {}, 150), Job("H5_metadata", "h5_metadata", {}, 60)]
+    KD = [Job("H6_keyderiv:R2", "h6_keyderiv", {"rev": 2}, 600, "H6_keyderiv")] + [Job("H6_keyderiv:R4:%d" % k, "h6_keyderiv", {"rev": 4, "part": [k, 4, 3]}, 600, "H6_keyderiv") for k in range(4)] + \
+         [Job("H6_keyderiv:R3:%d" % k, "h6_keyderiv", {"rev": 3, "part": [k, 6, 4]}, 600, "H6_keyderiv") for k in range(6)] + [Job("H6_r5", "h6_r5", {}, 300), Job("H6_r5:R6", "h6_r5", {"rev": 6}, 300, "H6_r5")] + \
+         [Job("H6_r6hash:%s" % pt, "h6_r6hash", {"pattern": pt}, 600, "H6_r6hash") for pt in (("cycle", "mixed") if tier == "quick" else sorted(R6_PATTERNS))]
+    J = KD + [Job("H1_permissions", "h1_permissions", {}, 60), Job("H2_where", "h2_where", {}, 150), Job("H4_keys", "h4_keys", {}, 150), Job("H5_metadata", "h5_metadata", {}, 60)]
     for k in range(2):
         J.append(Job("H3_padding:%d" % k, "h3_padding", {"part": [k, 2, 5]}, 200, "H3_padding"))
     # H4_rc4 (RC4 twice = identity on symbolic data) is not registered: the XOR of two symbolic bytes does not get a solver verdict within
